@@ -333,9 +333,11 @@ def run_history(ctx, scratch, kind):
                 target = path
             save_obj(kind, obj, target, ftype, overwrite)
         except Exception as exc:
-            raised = exc
+            raised = exc.with_traceback(None)   # the traceback would keep the library's h5py.File on our handle alive
         finally:
             if handle is not None:
+                import gc
+                gc.collect()   # the library's h5py.File on the caller's handle is closed by the collector; close ours afterwards
                 try:
                     handle.close()
                 except Exception:
